@@ -170,6 +170,28 @@ def spaces(tier, variant, seed):
         chkq(R, "mpq_canonicalize", q, Fraction(n, d), "canonicalize(%x/%x)" % (n, d))
         return (al.sgn(n), al.sgn(d), min(math.gcd(n, d), 3), al.nl(abs(n)), al.nl(abs(d)))
 
+    # (g*a)/(g*b) for coprime a, b and a family of common factors g, among them multi-limb factors whose low limb alone is 1, 2 or a
+    # power of two (a gcd must be judged by all of its limbs), every sign combination
+    CG = [1, 2, 3, 6, 12, M, H, B, 2 * B, B - 1, B + 1, B + 2, B + 3, 3 * B + 1, (1 << 65) + 1, B * B + 1, B * B + 2, (dense2 << 64) + 1, B * B + B + 1, B * B - 1, 1 << 127, 1 << 190,
+          dense2 | 1, 3 << 64, (1 << 192) + 1, 10 ** 25, al.PAT(4)["dense"] | 1]
+    CA = [1, 2, 3, 5, 7, M, B, B + 1, B - 2, dense2 | 1, 1 << 100, (1 << 130) + 1, 10 ** 20 + 1]
+
+    def cg_cases(blk):
+        gi = blk
+        g = CG[gi]
+        for a in CA:
+            for b in CA:
+                if math.gcd(a, b) != 1:
+                    continue
+                for sn in (1, -1):
+                    for sd in (1, -1):
+                        yield (sn * g * a, sd * g * b)
+        yield (0, g)
+        yield (0, -g)
+
+    sp.append(Space("mpq_canonicalize_common_factors", list(range(len(CG))), cg_cases, cn_one,
+                    "mpq_canonicalize((g*a)/(g*b)): %d common factors (single and multi limb, low limb 1 / 2 / 3 / 0) x coprime pairs from %d values x 4 sign combinations; zero numerators" % (len(CG), len(CA))))
+
     sp.append(Space("mpq_canonicalize", list(range(len(CN))), cn_cases, cn_one, "mpq_canonicalize on a numerator x denominator grid (denominators of either sign, common factors 1/small/whole operand)"))
 
     f_set_z = lib.fn("mpq_set_z", None, P, P)
